@@ -371,6 +371,7 @@ def plans(tier: str) -> list[dict[str, Any]]:
     P = trav_plans.plan
     out = [
         P("ids: G1 2 workers max_tries=3", trav.menu("G1", params={"max_tries": "3"}, label="G1-tries3"), [ids_monitor], K=1, statuses=["PASS", "FAIL", "NONE"], max_nonpass=2),
+        P("own results: G1 2 workers, result records arriving late", trav.menu("G1"), [ids_monitor], K=1, statuses=["PASS", "LATE:PASS", "LATE:FAIL"], max_nonpass=2, pool_fixed={"install": ["shared"]}),
         P("ids: G2 2 workers max_tries=2", trav.menu("G2", params={"max_tries": "2", "stop_status": "pass"}, label="G2-tries2-stop"), [ids_monitor], K=1, statuses=["PASS", "FAIL"], max_nonpass=2),
         P("replay: G1 1 worker, previous results symbolic", trav.menu("G1x1", lazy=False, params={"replay": "job1"}, label="G1-replay"), [replay_monitor], K=1, statuses=["PASS"], pool_bits="shared", pool_states=["customize", "on_customize"], pool_fixed={"install": ["shared"]}, setup=_setup_previous),
     ]
